@@ -60,6 +60,87 @@ func listExhausted(list string) func(*core.Term) bool {
 	}
 }
 
+// collectorLists: for a pkg/builder function that gathers one element per entry of explicit-notation lists into a slice
+// (`for _, x := range opts.<L> { out = append(out, …) }`, every iteration appends, the slice is returned after all the loops),
+// the set of lists it gathers. A loop over the result of such a function searches all those lists.
+func (c *Ctx) collectorLists(fn *ssa.Function) map[string]bool {
+	out := map[string]bool{}
+	if fn == nil || fn.Blocks == nil || pkgOf(fn) == nil || pkgOf(fn).Path() != mod+"/pkg/builder" || fn.Signature.Results().Len() != 1 {
+		return out
+	}
+	if _, isSlice := fn.Signature.Results().At(0).Type().Underlying().(*types.Slice); !isSlice {
+		return out
+	}
+	rets := core.Returns(fn)
+	if len(rets) != 1 {
+		return out
+	}
+	d := c.ReachOf(rets[0])
+	for head, body := range allLoops(fn) {
+		ifi, ok := head.Instrs[len(head.Instrs)-1].(*ssa.If)
+		if !ok {
+			continue
+		}
+		cond := c.O.Of(ifi.Cond)
+		list := ""
+		for _, l := range explicitLists {
+			if listExhausted(l)(cond) {
+				list = l
+			}
+		}
+		if list == "" {
+			continue
+		}
+		// some block of the body appends and dominates every back edge
+		appends := false
+		for b := range body {
+			has := false
+			for _, in := range b.Instrs {
+				if cv, isCall := in.(*ssa.Call); isCall {
+					if bi, isB := cv.Call.Value.(*ssa.Builtin); isB && bi.Name() == "append" {
+						has = true
+					}
+				}
+			}
+			if !has {
+				continue
+			}
+			all := true
+			for _, p := range head.Preds {
+				if body[p] && !b.Dominates(p) {
+					all = false
+				}
+			}
+			if all {
+				appends = true
+			}
+		}
+		if appends && len(d) > 0 && d.Implies(c.M(false, listExhausted(list))) {
+			out[list] = true
+		}
+	}
+	return out
+}
+
+// listSearched: the loop-exit literal of a range over Options.<list> itself, or over the result of a collector of that list.
+func (c *Ctx) listSearched(list string) core.LitMatcher {
+	direct := c.M(false, listExhausted(list))
+	return func(l core.Lit) bool {
+		if direct(l) {
+			return true
+		}
+		t, pos := c.Canon(l)
+		if pos || t.Kind != "binop" || t.Name != "<" || !t.Args[1].IsCallTo("builtin:len") {
+			return false
+		}
+		cv, ok := t.Args[1].Args[0].V.(*ssa.Call)
+		if !ok {
+			return false
+		}
+		return c.collectorLists(cv.Call.StaticCallee())[list]
+	}
+}
+
 // isRefusal: v is the result of a call of a pkg/builder function that answers an error built by logger.Errorf only under a
 // positive look-ahead (hasNotationUnder) on a struct-typed destination, and nil otherwise.
 func (c *Ctx) isRefusal(v ssa.Value) bool {
@@ -80,7 +161,9 @@ func (c *Ctx) isRefusal(v ssa.Value) bool {
 			nNil++
 		case t.IsCallTo(fnErrorf):
 			nErr++
-			below := c.M(true, func(x *core.Term) bool { return x.Kind == "call" && strings.HasSuffix(x.Name, "assignmentBuilder).hasNotationUnder") })
+			below := c.M(true, func(x *core.Term) bool {
+				return x.Kind == "call" && strings.HasSuffix(x.Name, "assignmentBuilder).hasNotationUnder")
+			})
 			isStruct := c.M(true, func(x *core.Term) bool { return x.IsCallTo(fnIsStruct) })
 			if !d.Implies(below) || !d.Implies(isStruct) {
 				return false
@@ -319,7 +402,7 @@ func C06(c *Ctx) {
 	for _, la := range lookaheads {
 		fl := c.Reach(la).RetCond(0, false)
 		for _, l := range explicitLists {
-			r.Check("C06-4", FnKey(la)+":false⇒searched:"+l, c.Pos(la.Pos()), len(fl) > 0 && fl.Implies(c.M(false, listExhausted(l))), "the look-ahead can answer `no notation below` without having searched Options."+l+"; false-condition: "+fl.Describe(c.O))
+			r.Check("C06-4", FnKey(la)+":false⇒searched:"+l, c.Pos(la.Pos()), len(fl) > 0 && fl.Implies(c.listSearched(l)), "the look-ahead can answer `no notation below` without having searched Options."+l+"; false-condition: "+fl.Describe(c.O))
 		}
 	}
 	if len(lookaheads) >= 1 {
